@@ -993,6 +993,67 @@ def helper_argument_cases(ctx):
     return n
 
 
+def mixed_call_cases(ctx, count, only=None):
+    """The degenerate interleavings - senders and the receiver taking turns, call by call - with the receiver switching
+    between receive(block=False), poll() and iter_pending() (fully or partly consumed) as it pleases: each message
+    exactly once, each sender's messages in the order sent.  A port that keeps messages in more than one place
+    (MultiPort prefetches from its members into its own queue) has to drain them in the same order whichever
+    call asks."""
+    n = 0
+    for j in range(count):
+        seed = f'{ctx.seed}:{ctx.shard}:mixed:{j}'
+        ptype = ('multi-2', 'multi-3', 'echo', 'ioport', 'multi-1')[j % 5]
+        if only is not None:
+            seed, ptype = only
+        rng = random.Random(seed)
+        case = {'kind': 'mixed-calls', 'seed': seed, 'ptype': ptype}
+        if ptype.startswith('multi'):
+            members = [EchoPort(f'm{i}') for i in range(int(ptype[-1]))]
+            port = MultiPort(members)
+            outs = members
+        elif ptype == 'echo':
+            port = EchoPort('e')
+            outs = [port, port]
+        else:
+            e = EchoPort('e')
+            port = IOPort(e, e)
+            outs = [port, e]
+        nxt = [0] * len(outs)
+        got, log = [], []
+        try:
+            for step in range(rng.randrange(4, 30)):
+                op = rng.choice(('send', 'send', 'send', 'receive', 'poll', 'iter', 'iter-one', 'iter-two'))
+                log.append(op)
+                if op == 'send':
+                    s = rng.randrange(len(outs))
+                    outs[s].send(make_msg(s, nxt[s], rng.choice((0, 1, 2))))
+                    nxt[s] += 1
+                elif op == 'receive':
+                    m = port.receive(block=False)
+                    got.append(m) if m is not None else None
+                elif op == 'poll':
+                    m = port.poll()
+                    got.append(m) if m is not None else None
+                else:
+                    limit = {'iter': 10 ** 9, 'iter-one': 1, 'iter-two': 2}[op]
+                    for m in port.iter_pending():
+                        got.append(m)
+                        limit -= 1
+                        if limit <= 0:
+                            break
+            got.extend(port.iter_pending())
+            tags = [msg_tag(m) for m in got]
+            per = {s: [q for (s2, q) in tags if s2 == s] for s in range(len(outs))}
+            ok = all(per[s] == list(range(nxt[s])) for s in range(len(outs))) and len(tags) == sum(nxt)
+            ctx.check('per-sender FIFO per receiver' if sorted(tags) == sorted((s, q) for s in range(len(outs)) for q in range(nxt[s]))
+                      else 'exactly once (nothing lost, duplicated, invented)', ok, f'mixed-calls:{ptype}', case,
+                      lambda: {'received': tags[:30], 'calls': log[:40]})
+        except Exception as exc:
+            ctx.check('no call raises', False, f'mixed-calls:{type(exc).__name__}', case, f'{type(exc).__name__}: {exc}')
+        n += 1
+    return n
+
+
 def run(ctx):
     sh, N = ctx.shard, ctx.nshards
     total = collections.Counter()
@@ -1020,6 +1081,10 @@ def run(ctx):
         ctx.nontrivial(None, k_)
         ctx.extra('helper_argument_cases', k_)
         nstress += k_
+    k_ = mixed_call_cases(ctx, 300 if ctx.tier == 'quick' else 20000)
+    ctx.nontrivial(None, k_)
+    ctx.extra('mixed_call_sequences', k_)
+    nstress += k_
     if ctx.tier == 'thorough':
         nstress += stress_phase(ctx, 25.0)
     ctx.count('cases', total['schedules'] + nstress)
@@ -1036,6 +1101,9 @@ def run(ctx):
 
 
 def replay(ctx, case):
+    if case.get('kind') == 'mixed-calls':
+        mixed_call_cases(ctx, 1, only=(case['seed'], case['ptype']))
+        return
     if case.get('kind') == 'helper-args':
         helper_argument_cases(ctx)
         return
